@@ -79,12 +79,10 @@ def gen_group_item(rnd, gtag, depth):
 
 
 def gen_message(rnd, with_groups=True):
-    types = [m.value for m in FMsg] + ["ZZ", "U1", "ASD"]
+    # standard types, custom types, and custom types spelled like the NAME of a standard type (not its value)
+    types = [m.value for m in FMsg] + ["ZZ", "U1", "ASD"] + [rnd.choice([m.name, m.name.lower(), m.name.title()]) for m in rnd.sample(list(FMsg), 4)]
     mtype = rnd.choice(types)
-    try:
-        mtype = FMsg(mtype)
-    except ValueError:
-        pass
+    mtype = {m.value: m for m in FMsg}.get(mtype, mtype)  # (by value only: a custom type stays the text it is)
     m = FIXMessage(mtype)
     spec = []
     tags = rnd.sample(BODY_TAGS, rnd.randint(0, 6))
@@ -259,7 +257,7 @@ def record(viol, msg, what, buf, clauses, tag="plain"):
     if len(viol) < 40 and not any(v["key"] == key for v in viol):
         viol.append({"key": key, "case": {"mode": "decode", "buffer": buf.decode("latin-1")},
                      "observed": {"what": msg, "input": what, "buffer": repr(buf)[:300]}, "clauses": clauses,
-                     "nul": tag == "nul", "replay_family": "codec_fuzz"})
+                     "nul": tag == "nul", "huge": tag == "huge", "replay_family": "codec_fuzz"})
 
 
 def repeated_decode(cd, buf, what, viol):
@@ -326,10 +324,76 @@ def mutations(frame):
             yield ("insert %#x at %d" % (nb, i), frame[:i] + bytes([nb]) + frame[i:], "ins", i)
 
 
+def crafted_checksum_decoys():
+    """valid frames holding a field 1d=<v> (d = 1..9) such that the single-byte substitution d -> 0 turns it into a
+    field 10=<v> whose value equals the byte sum of the corrupted frame: a decoder that lets ANY tag-10 field vouch
+    for the frame accepts the corruption although the closing CheckSum field no longer matches."""
+    cd = codec()
+    out = []
+    for d in "123456789":
+        tag = "1" + d
+        for v in range(256):
+            s = session(7)
+            m = FIXMessage(FMsg.NEWS, {148: "decoy"})
+            m.set(tag, str(v))
+            f = encode_bytes(cd, m, s)
+            pos = f.find(SOH + tag.encode() + b"=") + 2
+            mut = f[:pos] + b"0" + f[pos + 1:]
+            body = mut[:mut.rfind(b"\x0110=", 0, len(mut) - 1) + 1]
+            if sum(body) % 256 == v:
+                out.append((f, "substitute byte %d (tag %s -> 10, value %d equals the new byte sum)" % (pos, tag, v), mut))
+                break
+    return out
+
+
+def two_reads(cd, first, second):
+    """what a reader does with two reads: decode / drop until no progress, append, again. returns (frames, error)"""
+    buf, got = b"", []
+    for chunk in (first, second):
+        buf += chunk
+        for _ in range(len(buf) + 3):
+            try:
+                d, consumed, r = cd.decode(buf)
+            except BaseException as e:  # noqa
+                return got, "decode raised %s" % type(e).__name__
+            if not isinstance(consumed, int) or consumed < 0 or consumed > len(buf):
+                return got, "consumed %r of %d bytes" % (consumed, len(buf))
+            buf = buf[consumed:]
+            if d is not None:
+                got.append(r)
+            if consumed == 0 or not buf:
+                break
+    return got, None
+
+
 def c10(params, rnd):
     cd = codec()
     viol, n = [], 0
     frames = corpus()
+    # 0a. adversarial corruptions: a body field becomes a second CheckSum field that matches
+    for f, what, mut in crafted_checksum_decoys():
+        n += 1
+        assert frame_ok(f)
+        res = check_decode(cd, mut, what, viol, intact=f, may_return=False)
+        if res is not None and res[0] is not None:
+            record(viol, "a corrupted frame is returned as a message", what, mut, ["corrupted_frame_accepted"])
+    # 0b. marker-free garbage in front of a frame that arrives in two reads (every cut position)
+    nxt = traffic(1)[0]
+    for g in (b"\r\n", b"line noise without any marker, 40 bytes.", b"\x01\x01\x01"):
+        for f in frames[:3]:
+            for k in range(1, len(f)):
+                n += 1
+                got, err = two_reads(cd, g + f[:k], f[k:] + nxt)
+                if err is not None or got != [f, nxt]:
+                    record(viol, "garbage + a frame cut at %d: %s" % (k, err or "%d of 2 frames decoded" % len(got)),
+                           "garbage + truncated frame, then the rest", g + f[:k], ["never_raises" if err else "followers_not_blocked"])
+    # 0c. a syntactically valid but absurd BodyLength
+    huge = b"8=FIX.4.4\x019=99999999\x0135=0\x0110=000\x01"
+    n += 1
+    got = repeated_decode(cd, huge + b"".join(traffic(20)), "absurd BodyLength + traffic", viol)
+    if not got:
+        record(viol, "valid frames behind a frame announcing 99999999 bytes are not decoded until that many bytes have arrived",
+               "absurd BodyLength + traffic", huge, ["followers_not_blocked"], "huge")
     tail = traffic(params.get("traffic_frames", 110))
     tail_bytes = b"".join(tail)
     # 1. arbitrary bytes
